@@ -4,6 +4,7 @@ C02 — A string class accepts a label iff every code point is valid in its cont
 the two standard classes are `derivedProp .identifier` / `derivedProp .freeform`.
 -/
 import Precis.Model.StringClass
+import Precis.Props.C03
 namespace Precis.C02
 open Precis
 
@@ -197,6 +198,51 @@ theorem allows_err_shape (dp : Nat → DPV) (label : List Nat) (e : Err) (h : al
     have := (errAt_ok_iff dp label k hk).2 H
     rw [hek] at this
     cases this
+
+/-- the two standard classes never report a missing or inapplicable context rule: exactly their
+contextual code points are registered (C03 `registry_exact`), and the registered rule is the code
+point's own (C03 `registry_applies`, `rule_notapp_iff`) -/
+theorem std_classes_never_missing (cls : Cls) (label : List Nat) (e : Err)
+    (h : allows (derivedProp cls) label = .err e) :
+    (∀ c p v, e ≠ .missingRule c p v) ∧ (∀ c p v, e ≠ .notApplicable c p v) := by
+  obtain ⟨k, hk, _, _, herr⟩ := allows_err_shape (derivedProp cls) label e h
+  have hreg := C03.registry_exact cls label[k]
+  simp only [errAt] at herr
+  constructor
+  · intro c p v he
+    subst he
+    cases hd : derivedProp cls label[k] <;> simp only [hd] at herr hreg <;> try (simp at herr; done)
+    all_goals
+      cases hr : getContextRule label[k] with
+      | none => simp [hr] at hreg
+      | some r =>
+        simp only [hr] at herr
+        cases ha : applyRule r label k with
+        | ok b => cases b <;> simp [ha] at herr
+        | notApplicable => simp [ha] at herr
+        | undefined => simp [ha] at herr
+        | panic => simp [ha] at herr
+  · intro c p v he
+    subst he
+    cases hd : derivedProp cls label[k] <;> simp only [hd] at herr hreg <;> try (simp at herr; done)
+    all_goals
+      cases hr : getContextRule label[k] with
+      | none => simp [hr] at herr
+      | some r =>
+        simp only [hr] at herr
+        have hown := (C03.registry_applies label[k] r hr).1
+        cases ha : applyRule r label k with
+        | ok b => cases b <;> simp [ha] at herr
+        | notApplicable =>
+          obtain ⟨c', hc', hown'⟩ := (C03.rule_notapp_iff r label k).mp ha
+          have : c' = label[k] := by
+            have := List.getElem?_eq_getElem hk
+            rw [this] at hc'; exact (Option.some.inj hc').symm
+          subst this
+          rw [hown] at hown'
+          cases hown'
+        | undefined => simp [ha] at herr
+        | panic => simp [ha] at herr
 
 /-- non-vacuity: a label whose third code point is the first offender (a 3-byte character before it) -/
 example : allows (fun c => if c = 0x41 then .disallowed else .pValid) [0x65E5, 0x61, 0x41, 0x41]
